@@ -5,6 +5,7 @@
 package main
 
 import (
+	"bytes"
 	"context"
 	"encoding/json"
 	"flag"
@@ -12,6 +13,7 @@ import (
 	"os"
 	"path/filepath"
 	"reflect"
+	"regexp"
 	"sort"
 	"strings"
 
@@ -40,7 +42,10 @@ type op struct {
 }
 
 type doc struct {
-	LoadError     string     `json:"load_error,omitempty"`
+	LoadError string `json:"load_error,omitempty"`
+	// Recovered: the document did not load because of numeric exclusiveMinimum/exclusiveMaximum (a recorded finding); it was
+	// read again with those written the draft-4 way so that the rest of the document is still examined
+	Recovered     bool       `json:"recovered,omitempty"`
 	ValidateError string     `json:"validate_error,omitempty"`
 	ExampleError  string     `json:"example_error,omitempty"` // valid except that an example does not match its schema
 	Ops           []op       `json:"ops"`
@@ -57,6 +62,9 @@ type report struct {
 	EqualNote string    `json:"json_yaml_note,omitempty"`
 	V2Diff    *diffInfo `json:"v2_diff,omitempty"`
 	V3Diff    *diffInfo `json:"v3_diff,omitempty"`
+	// every leaf difference (the first 40), so that one known difference does not hide another
+	V2Diffs []*diffInfo `json:"v2_diffs,omitempty"`
+	V3Diffs []*diffInfo `json:"v3_diffs,omitempty"`
 }
 
 func main() {
@@ -68,8 +76,10 @@ func main() {
 	var note []string
 	r.V2Equal, note = sameContent(filepath.Join(*dir, "openapi.json"), filepath.Join(*dir, "openapi.yaml"), note)
 	r.V2Diff, lastDiff = lastDiff, nil
+	r.V2Diffs, allDiffs = allDiffs, nil
 	r.V3Equal, note = sameContent(filepath.Join(*dir, "openapi3.json"), filepath.Join(*dir, "openapi3.yaml"), note)
 	r.V3Diff, lastDiff = lastDiff, nil
+	r.V3Diffs, allDiffs = allDiffs, nil
 	r.EqualNote = strings.Join(note, "; ")
 	b, _ := json.Marshal(r)
 	fmt.Println(string(b))
@@ -102,7 +112,15 @@ func loadV3(path string) doc {
 	t, err := loader.LoadFromData(data)
 	if err != nil {
 		d.LoadError = err.Error()
-		return d
+		fixed, ok := draft4Bounds(data)
+		if !ok || !exclusiveBound.MatchString(d.LoadError) {
+			return d
+		}
+		if t, err = openapi3.NewLoader().LoadFromData(fixed); err != nil {
+			d.LoadError += "; after rewriting the exclusive bounds: " + err.Error()
+			return d
+		}
+		d.Recovered = true
 	}
 	if err := t.Validate(context.Background(), openapi3.DisableExamplesValidation()); err != nil {
 		d.ValidateError = err.Error()
@@ -118,6 +136,46 @@ func loadV3(path string) doc {
 	sort.Strings(d.Schemes)
 	d.TopSecurity, _ = secReqs(&t.Security)
 	return d
+}
+
+var exclusiveBound = regexp.MustCompile(`exclusiveM(in|ax)imum of type bool`)
+
+// draft4Bounds rewrites {"exclusiveMinimum": n} into {"minimum": n, "exclusiveMinimum": true} (and the same for the maximum)
+// everywhere in the document; ok is false when nothing was rewritten.
+func draft4Bounds(data []byte) ([]byte, bool) {
+	var v any
+	dec := json.NewDecoder(bytes.NewReader(data))
+	dec.UseNumber()
+	if err := dec.Decode(&v); err != nil {
+		return nil, false
+	}
+	changed := false
+	var walk func(x any)
+	walk = func(x any) {
+		switch t := x.(type) {
+		case map[string]any:
+			for _, k := range [][2]string{{"exclusiveMinimum", "minimum"}, {"exclusiveMaximum", "maximum"}} {
+				if n, isNum := t[k[0]].(json.Number); isNum {
+					t[k[1]] = n
+					t[k[0]] = true
+					changed = true
+				}
+			}
+			for k, y := range t {
+				if k == "example" || k == "default" || k == "enum" {
+					continue // data, not schema
+				}
+				walk(y)
+			}
+		case []any:
+			for _, y := range t {
+				walk(y)
+			}
+		}
+	}
+	walk(v)
+	out, err := json.Marshal(v)
+	return out, changed && err == nil
 }
 
 func opsOfV3(t *openapi3.T) []op {
@@ -164,7 +222,16 @@ func loadV2(path string) doc {
 	var t openapi2.T
 	if err := json.Unmarshal(data, &t); err != nil {
 		d.LoadError = err.Error()
-		return d
+		fixed, ok := draft4Bounds(data)
+		if !ok || !exclusiveBound.MatchString(d.LoadError) {
+			return d
+		}
+		t = openapi2.T{}
+		if err := json.Unmarshal(fixed, &t); err != nil {
+			d.LoadError += "; after rewriting the exclusive bounds: " + err.Error()
+			return d
+		}
+		d.Recovered = true
 	}
 	if t.Swagger != "2.0" {
 		d.Notes = append(d.Notes, "swagger field is "+t.Swagger)
@@ -272,6 +339,7 @@ func sameContent(jsonPath, yamlPath string, note []string) (bool, []string) {
 	if reflect.DeepEqual(jn, yn) {
 		return true, note
 	}
+	everyDiff(jn, yn, "")
 	return false, append(note, filepath.Base(jsonPath)+" differs from its YAML rendering at "+firstDiff(jn, yn, ""))
 }
 
@@ -338,6 +406,44 @@ func firstDiff(a, b any, path string) string {
 	}
 	lastDiff = &diffInfo{Path: path, JSON: truncN(a, 400), YAML: truncN(b, 400), JSONType: fmt.Sprintf("%T", a), YAMLType: fmt.Sprintf("%T", b)}
 	return fmt.Sprintf("%s: %v (%T) vs %v (%T)", path, trunc(a), a, trunc(b), b)
+}
+
+var allDiffs []*diffInfo
+
+// everyDiff records every leaf at which the two values differ.
+func everyDiff(a, b any, path string) {
+	if len(allDiffs) >= 40 || reflect.DeepEqual(a, b) {
+		return
+	}
+	am, aok := a.(map[string]any)
+	bm, bok := b.(map[string]any)
+	if aok && bok {
+		keys := map[string]bool{}
+		for k := range am {
+			keys[k] = true
+		}
+		for k := range bm {
+			keys[k] = true
+		}
+		var ks []string
+		for k := range keys {
+			ks = append(ks, k)
+		}
+		sort.Strings(ks)
+		for _, k := range ks {
+			everyDiff(am[k], bm[k], path+"/"+k)
+		}
+		return
+	}
+	as, aok := a.([]any)
+	bs, bok := b.([]any)
+	if aok && bok && len(as) == len(bs) {
+		for i := range as {
+			everyDiff(as[i], bs[i], fmt.Sprintf("%s/%d", path, i))
+		}
+		return
+	}
+	allDiffs = append(allDiffs, &diffInfo{Path: path, JSON: truncN(a, 400), YAML: truncN(b, 400), JSONType: fmt.Sprintf("%T", a), YAMLType: fmt.Sprintf("%T", b)})
 }
 
 type diffInfo struct {
